@@ -166,6 +166,31 @@ bool is_varg_sep(int ch)
 
 
 //-----------------------------------------------------------------------------
+bool is_quote_needed(const std::string &text)
+{
+   if (text.empty())
+   {
+      return(true);
+   }
+
+   for (const char ch : text)
+   {
+      if (  is_arg_sep(ch)
+         || ch == '#'
+         || ch == '\\'
+         || ch == '\''
+         || ch == '"'
+         || ch == '`')
+      {
+         return(true);
+      }
+   }
+
+   return(false);
+}
+
+
+//-----------------------------------------------------------------------------
 std::vector<std::string> split_args(std::string in, const char *filename,
                                     bool (*is_sep)(int))
 {
@@ -922,6 +947,32 @@ bool Option<std::string>::read(const char *in)
 
 
 //-----------------------------------------------------------------------------
+std::string quote_config_arg(const std::string &text, bool always)
+{
+   if (  !always
+      && !is_quote_needed(text))
+   {
+      return(text);
+   }
+   std::string out = "\"";
+
+   for (const char ch : text)
+   {
+      // split_args() drops a backslash and keeps the character that follows it
+      if (  ch == '\\'
+         || ch == '"')
+      {
+         out += '\\';
+      }
+      out += ch;
+   }
+
+   out += '"';
+   return(out);
+}
+
+
+//-----------------------------------------------------------------------------
 void begin_option_group(const char *description)
 {
    auto g = OptionGroup{ description, {} };
@@ -1331,7 +1382,7 @@ void save_option_file(FILE *pfile, bool with_doc, bool minimal)
 
          if (option->type() == OT_STRING)
          {
-            fprintf(pfile, "\"%s\"", val.c_str());
+            fprintf(pfile, "%s", quote_config_arg(val, true).c_str());
          }
          else
          {
